@@ -33,7 +33,10 @@ REQUEST, REQUEST_NO_RETURN, RESPONSE, ERROR = 0, 1, 0x80, 0x81
 
 
 def response_for(payload: bytes) -> bytes:
-    return b"R" + payload[::-1][:40]
+    base = b"R" + payload[::-1][:40]
+    # replies of any length: short ones, and ones around / beyond the 1400 bytes an unfragmented datagram usually holds
+    n = (None, None, None, 1384, 1385, 1400, 1401, 4000, 65000)[(len(payload) + sum(payload[:2])) % 9]
+    return base if n is None else (base * (n // len(base) + 1))[:n]
 
 
 def model(m, multicast):
